@@ -1435,8 +1435,9 @@ def translator_leg(ctx: Ctx) -> bool:
 
 def rejected_lifecycle(ctx: Ctx):
     """Log the detector classes / readout loops of the regenerated tables that the lifecycle check rejects."""
-    text = ("From Coq Require Import List.\nFrom PyxelV Require Import Model.FluxDet.\n"
-            "From PyxelGen Require Import Gen_C17.\nImport ListNotations.\nEval vm_compute in bad_classes det_table.\n"
+    text = ("From Coq Require Import List String.\nFrom PyxelV Require Import Model.FluxDet.\n"
+            "From PyxelGen Require Import Gen_C17.\nImport ListNotations.\nOpen Scope string_scope.\n"
+            "Set Printing Depth 100000.\nEval vm_compute in bad_classes det_table.\n"
             "Eval vm_compute in bad_loops det_table loop_table.\n")
     ctext = ("From Coq Require Import List.\nFrom PyxelV Require Import Model.FluxExpr.\n"
              "From PyxelGen Require Import Gen_C17.\nImport ListNotations.\nEval vm_compute in bad_conv_rows conv_table.\n")
